@@ -102,6 +102,17 @@ def cases_for(tier, rng):
                             for prog in (side, nested):
                                 cases.append(dict(prog=prog, src=sources(kw={'seq': lst('S', items, ck), 'x': plain('outer-x')}),
                                                   K=0, fk=[], svn=svn_table()))
+    # None is an element like any other (every pattern of None / string elements, every container)
+    for n in range(1, 5):
+        for pat in itertools.product((False, True), repeat=n):
+            if not any(pat):
+                continue
+            items = [none() if isn else plain('s%d' % i) for i, isn in enumerate(pat)]
+            for ck in containers:
+                for nopush, pre in ((False, False), (True, True)):
+                    blk = In(N('seq'), body('str', pre, nopush), [T('EMPTY'), V('x')], nopush=nopush, pre=pre)
+                    cases.append(dict(prog=[T('<'), blk, T('>'), V('x')],
+                                      src=sources(kw={'seq': lst('S', items, ck), 'x': plain('outer-x')}), K=0, fk=[], svn=svn_table()))
     # a callable that returns the sequence is called once, by name
     f = fn('FS', lst('S', [elem('obj', 0, 'x1'), elem('obj', 1, 'x1'), elem('obj', 2, 'x2')]))
     cases.append(dict(prog=[In(N('fs'), body('obj', True, False)), V('x')],
